@@ -1,10 +1,11 @@
 import Rare.Base.Proto
 import Rare.Model.Expr.Std
 import Rare.Gen.Tables
+import Rare.Model.C09Utf8
 /-!
 Shared `expr` op of the expression-language properties (C08–C11, C17, C19):
 
-  expr <opt 0|1> <template: hex of UTF-8> <elements: hex list> <keys: hex list k;v;k;v…>
+  expr <opt 0|1> <template: hex of the RAW bytes of the Go string> <elements: hex list> <keys: hex list k;v;k;v…>
 
 answers `ok errs=<kind@index:ctx,…> val=<hex>`, `panic` (the model predicts a Go panic at
 compile or evaluation time) or `unmodelled <function>`.
@@ -12,8 +13,11 @@ compile or evaluation time) or `unmodelled <function>`.
 namespace Rare.Drv.Expr
 open Rare Rare.Expr Rare.Proto
 
+/-- `[]rune(template)`: the template field carries the raw bytes handed to the real `Compile`; the model's
+    own UTF-8 decoder (`Rare.C09.decodeRunes`: one U+FFFD per invalid byte, `Rare/Model/C09Utf8.lean`) turns
+    them into runes.  Total – the `Option` is kept for the callers' sake. -/
 def decodeTemplate (b : Bytes) : Option (List Char) :=
-  (String.fromUTF8? (ByteArray.mk b.toArray)).map String.toList
+  some (Rare.C09.decodeRunes b)
 
 def mkCtx (elems : List Bytes) (keys : List Bytes) : Ctx :=
   let rec pairs : List Bytes → List (Bytes × Bytes)
